@@ -33,7 +33,12 @@ pub struct V5 {
     /// V5 Header
     pub header: Header,
     /// V5 Sets
-    #[nom(Count = "header.count")]
+    // A flow record takes 48 bytes: a count the input cannot hold is an error before any space
+    // is reserved for it.
+    #[nom(
+        ErrorIf = "usize::from(header.count).saturating_mul(48) > i.len()",
+        Count = "header.count"
+    )]
     pub flowsets: Vec<FlowSet>,
 }
 
